@@ -523,6 +523,40 @@ def main(argv):
                 c.broken.append("correspondence foldfilter_cli model vs bin/foldfilter -w %r: model %s, tool status %s stdout %s" % (w, m[:80], st, hx(so)[:80]))
     c.cov["traces_validated_against_impl"] += len(wstrs)
 
+    # ---------------- the delimiter option: the code points of a valid UTF-8 string; anything else a usage error
+    dstrs = [b" ", b":, -./", b"", u8("\u00b7 "), u8("\u3001\u00e9\U0001F600"), b"\xff", b"\xc3", b"a\x80", b"\xed\xa0\x80", b"\xf4\x90\x80\x80", b" \xc2"]
+    dinp = u8("ab cd\u00b7ef\u3001gh, ij\n\U0001F600 x\n")
+    dlines = ["TD 33 %d %s bracket %s" % (i % 2, hx(d), hx(dinp)) for i, d in enumerate(dstrs)]
+    dm = None
+    if drv is not None:
+        rc, dm, err = run_lines(drv, dlines)
+        if len(dm) != len(dlines):
+            c.broken.append("model driver died on delimiter option cases: " + err[-200:])
+            dm = None
+    for i, d in enumerate(dstrs):
+        if stream_hangs[0] >= 3:
+            break
+        argv = [tool, "-w", "3"] + ([] if i % 2 else ["-s"]) + ["-d", d, os.path.join(CHILDREN, "child_bracket.py")]
+        st, so, se = run_limited(argv, stdin=dinp, timeout=10, mem_mb=2048)
+        try:
+            d.decode("utf-8", "strict")
+            valid = True
+        except UnicodeDecodeError:
+            valid = False
+        c.count(("delims-option", d), nontrivial=True, bucket="delims-option/" + ("valid" if valid else "not-utf8"))
+        rep = {"op": "tool", "argv": ["-w", "3", "-d", repr(d), "child_bracket.py"], "stdin": dinp.decode("utf-8"), "status": st, "stdout_hex": hx(so),
+               "stderr": se.decode("utf-8", "replace")[-300:]}
+        if valid and st != 0:
+            c.violation("delims-option: -d %r is valid UTF-8 but foldfilter ended with status %s" % (d, st), rep)
+        if not valid and (st == 0 or st == "timeout" or (isinstance(st, int) and (st < 0 or st >= 128))):
+            c.violation("delims-option: -d %r is not valid UTF-8; expected a usage error, got status %s" % (d, st), rep)
+        if dm is not None:
+            m = dm[i]
+            agree = (m == "USAGE" and isinstance(st, int) and 0 < st < 128) or (m == "OK " + hx(so) and st == 0)
+            if not agree:
+                c.broken.append("correspondence foldfilter_cli2 model vs bin/foldfilter -d %r: model %s, tool status %s stdout %s" % (d, m[:80], st, hx(so)[:80]))
+    c.cov["traces_validated_against_impl"] += len(dstrs)
+
     return c.finish(level="proof",
                     rule="wrap_lines: every line over {a, e-acute, euro sign, U+1F600, space, middle dot} up to length %d x widths 1-6 x both -s modes x both delimiter preference orders; random lines of 1-4 byte code points (incl. CR, U+FFFD, U+10FFFF) with delimiter runs, widths around the line length, 7 delimiter lists incl. empty and multi-byte; malformed UTF-8 lines; tool level: bin/foldfilter x option sets x identity/bracketing/upper-casing children on multi-line inputs incl. empty lines, CR, no final newline. distinct = distinct non-empty inputs" % (5 if quick else 6),
                     assumptions=["lines shorter than 2^31 bytes (pos_first_delimiter is an int32_t)",
